@@ -208,8 +208,8 @@ def impl_trace(tr, tid):
             hist[n] = v
         for n, v in l['q']:
             q[n] = v
-        if l.get('x'):
-            x = l['x']
+        if l.get('xs'):
+            x = l['xs']
         a = l['a']
         out = {'a': a}
         if a in ('ProcB', 'ProcE', 'ProcX'):
